@@ -117,8 +117,22 @@ func NextPartPos(pos token.Pos, part any) (nextPos token.Pos) {
 // Pos returns position of first character belonging to the node.
 func (x *BasicLit) Pos() token.Pos { return x.ValuePos }
 
+// litPrefix returns the prefix of a c"..." or py"..." literal; it precedes the
+// string at ValuePos but is not part of Value.
+func litPrefix(kind token.Token) string {
+	switch kind {
+	case token.CSTRING:
+		return "c"
+	case token.PYSTRING:
+		return "py"
+	}
+	return ""
+}
+
 // End returns position of first character immediately after the node.
-func (x *BasicLit) End() token.Pos { return token.Pos(int(x.ValuePos) + len(x.Value)) }
+func (x *BasicLit) End() token.Pos {
+	return token.Pos(int(x.ValuePos) + len(litPrefix(x.Kind)) + len(x.Value))
+}
 
 func (*BasicLit) exprNode() {}
 
